@@ -49,6 +49,21 @@ def run(res, prop=PROP, mode=MODE, kinds=None):
     res.assumptions = ["what the library does with each file (formatted / different text / error) is an oracle of the process model; the formatted text is obtained from the same binary through stdin",
                        "touching is observed through bytes and mtime (atime / inotify are not observed); write atomicity under crashes is outside the model",
                        "permission-based failures cannot be produced as root; read-only files use the immutable attribute when the file system supports it"]
+    # a known class outside the generated scenarios (they leave the environment alone): the exit status 2 is set by the logger's format
+    # closure, so a log filter that switches error records off switches the status off too.  One witness; listed -> KNOWN-FINDING line,
+    # reproducing and not listed -> violation, no longer reproducing -> nothing.
+    d = scratch("c13env")
+    try:
+        open(os.path.join(d, "broken.lua"), "w").write("local x = = 1\n")
+        code, _, _ = stylua((["--check"] if mode == "check" else []) + ["broken.lua"], d, env_extra={"STYLUA_LOG": "stylua=off"})
+        if code != 2:
+            kf = [e for e in known_findings(prop) if e.get("id") == "F-%s-status-through-logger" % prop]
+            if kf: res.known.append(kf[0]["what"])
+            else:
+                res.violation(dict(kind="input", check="exit-status-with-log-filter", cli=dict(scenario=dict(id="env", mode=mode, files=[("broken.lua", "unparseable")], args=["broken.lua"], extra=(["--check"] if mode == "check" else []), env={"STYLUA_LOG": "stylua=off"}), contents={}),
+                                   observed="exit status %d" % code, expected="exit status 2 for a file that does not parse, whatever STYLUA_LOG says"))
+    finally:
+        cleanup(d)
     if not (t_ok and proof["ok"] and tie_ok):
         if bads:
             seen = set()
